@@ -59,7 +59,7 @@ func streamFor(label string, x []byte) (cipher.Stream, []byte, []byte) {
 
 // Keys is the key material of one session.
 type Keys struct {
-	InitSeed, RespSeed   []byte
+	InitSeed, RespSeed    []byte
 	InitPadKey, InitPadIV []byte
 	RespPadKey, RespPadIV []byte
 	InitKey, InitIV       []byte
